@@ -602,9 +602,49 @@ def run(check, an: Analysis):
                 check.instance('P', 'Process.interrupt:only-alive', alive is True,
                                event.where, 'interrupts are queued only while the process '
                                'has not finished', path=rules.path_lines(path, index))
+    check_defused_at_hand_over(check, an, 'P')
     check_interrupt_never_refused(check, an, 'P')
     check_interrupt_wins(check, an, 'P')
     _run_after_interrupts(check, an)
+
+
+def check_defused_at_hand_over(check, an: Analysis, rule: str):
+    """a failed event is marked as handled at the moment its exception is handed to someone
+    (raised into the awaiter, thrown into the generator, passed on to a condition): no path
+    suspends between the mark and the end of the function -- a waiter that gives up while it
+    is still waiting has not handled anything"""
+    n, bad = 0, None
+    for fn in an.p.functions.values():
+        if fn.module.name != 'usim.py.events' or isinstance(fn.node, ast.Lambda) or \
+                fn.kind not in ('coroutine', 'generator', 'sync', 'asyncgen'):
+            continue
+        if not any(isinstance(n_, ast.Attribute) and n_.attr == 'defused'
+                   and isinstance(n_.ctx, ast.Store) for n_ in ast.walk(fn.node)):
+            continue
+        owner = an.p.enclosing_self_class(fn)
+        for path in an.paths(Callee(fn, owner.qn if owner else None)):
+            for index, event in enumerate(path.events):
+                if event.kind == 'store' and event.fn is fn and isinstance(
+                        event.node, ast.Attribute) and event.node.attr == 'defused' and \
+                        isinstance(event.data.get('value'), ast.Constant) and \
+                        event.data['value'].value is True:
+                    n += 1
+                    for later in path.events[index + 1:]:
+                        handed = later.kind == 'raise' or (
+                            later.kind in ('call', 'enter') and isinstance(
+                                later.node, ast.Call) and isinstance(
+                                later.node.func, ast.Attribute)
+                            and later.node.func.attr in ('throw', 'fail'))
+                        if handed:
+                            break
+                        if is_suspension(later):
+                            bad = bad or (fn, path, index)
+                            break
+    check.instance(rule, 'defused:marked-at-hand-over', bad is None and n > 0,
+                   where_fn(bad[0]) if bad else 'usim/py/events.py',
+                   'no suspension lies between a `defused = True` and the hand-over of the '
+                   'exception (raise / throw / fail) on any path (%d marks on paths)' % n,
+                   path=rules.path_lines(bad[1], bad[2]) if bad else None, analysed=n)
 
 
 def check_interrupt_never_refused(check, an: Analysis, rule: str):
